@@ -823,8 +823,10 @@ event_base_cancel_single_callback_(struct event_base *base,
 		case EV_CLOSURE_EVENT_FINALIZE:
 		case EV_CLOSURE_EVENT_FINALIZE_FREE: {
 			struct event *ev = event_callback_to_event(evcb);
+			/* the finalizer may free the memory that holds ev */
+			int free_ev = (evcb->evcb_closure == EV_CLOSURE_EVENT_FINALIZE_FREE);
 			ev->ev_evcallback.evcb_cb_union.evcb_evfinalize(ev, ev->ev_arg);
-			if (evcb->evcb_closure == EV_CLOSURE_EVENT_FINALIZE_FREE)
+			if (free_ev)
 				mm_free(ev);
 			break;
 		}
